@@ -324,7 +324,13 @@ class Builder:
         elif isinstance(t, ast.Attribute):
             if isinstance(t.value, ast.Name) and t.value.id == "self":
                 self.fn.stmts.append(("assign", self.var("self." + t.attr), value_srcs))
-            # storing into another object's attribute: no array write
+            elif t.attr in ("shape", "strides", "dtype", "writeable"):
+                # `a.shape = …`, `a.strides = …`, `a.dtype = …`, `a.flags.writeable = …` change the array object itself (the one the
+                # caller holds): a write, although no element is stored
+                b = self.base_var(t.value)
+                if b is not None:
+                    self.fn.stmts.append(("write", b))
+            # storing into any other attribute of another object: no array write
         elif isinstance(t, (ast.Tuple, ast.List)):
             for x in t.elts:
                 self.assign_target(x, value_srcs)
